@@ -1598,7 +1598,7 @@ def run(env: Env) -> Outcome:
     cases += corpus()
     cases.append(KEYERROR_WITNESS)
     rng = env.rng
-    n = env.budget(120, 4000)
+    n = env.budget(120, 10000)
     for _ in range(n):
         cases.append(gen_scenario(rng))
     owner: list[int] = []
